@@ -540,6 +540,12 @@ class _BBRepr(Repr):
             return ret
         return _BUILTIN_ID_NAME_MAP.get(id(x), ret)
 
+    def repr_float(self, x, level):
+        ret = repr(x)
+        if ret in ('inf', '-inf', 'nan'):  # (these are not Python expressions)
+            return "float('%s')" % ret
+        return ret
+
     def repr_slice(self, x, level):
         # (reprlib leaves slices to repr(): a builtin inside would not get its name)
         return 'slice(%s)' % ', '.join([self.repr1(v, level - 1)
